@@ -8,6 +8,7 @@ from .rules import ab as AB
 from .rules import tj as TJ
 from .rules import ps as PS
 from .rules import th as TH
+from .rules import misc as MI
 
 TRUST = ('trusted: the CPython parser (ast), the callee resolver of sa/model.py (receiver roles, '
          'unique method names), Python list/str/re semantics as encoded in the rules; ')
@@ -22,7 +23,7 @@ def prop(pid, rules, explanation, level, note, technique, design_ref, assumption
 
 
 prop('C01',
-     [PD.pd1, PD.pd2, PD.pd3, PD.pd4, PD.pd5, EM.em1, AB.ab1, LS.ls1, LS.ls1_ml, LS.ls1_shell, AB.ab3,
+     [PD.pd1, PD.pd2, PD.pd3, PD.pd4, PD.pd5, MI.pd0, MI.tx1, MI.df1, EM.em1, AB.ab1, LS.ls1, LS.ls1_ml, LS.ls1_shell, AB.ab3,
       T.sp3],
      'inductive argument from static rules: tokens outside the scanner are pinned, '
      'single-character or faithful copies (PD1, PD2, SP3), pinned positions are never shifted '
@@ -41,7 +42,7 @@ prop('C01',
      'DESIGN.md 3.1, 3.2, 4 C01')
 
 prop('C02',
-     [PD.pd1, PD.pd3, PD.pd4, PD.pd5, T.sp3, LS.ls1],
+     [PD.pd1, PD.pd3, PD.pd4, PD.pd5, MI.pd0, MI.tx1, T.sp3, LS.ls1],
      'copied text keeps its own offset: argument tokens are moved, never rewritten (PD5); a '
      'shortened token advances its position by the removed prefix, only if unpinned (PD4, '
      'PD3); replaced sequences are copy-form tokens at the position of the sequence (PD1, '
@@ -53,8 +54,22 @@ prop('C02',
      'static analysis: AST store census + ownership data-flow + guard dominance',
      'DESIGN.md 3.1, 4 C02')
 
+prop('C03',
+     [MI.dt1, MI.ex2, MI.df1, PD.pd5],
+     'no markup class reaches the default emit and comments are dropped (DT1); an argument '
+     'handed back for expansion is not expanded a second time by its handler (EX2: no '
+     'duplicated footnotes); text of definition files never reaches the output, including '
+     'extracted flows (DF1); stored bodies and arguments are not mutated between uses (PD5)',
+     'decides the "never leaks" half for comments / definitions and the duplication clause '
+     'for handler arguments; not decided: that arbitrary nestings expand to the right multiset '
+     'of words in order (run-time token sequences)',
+     'the handler registry (Macro/Environ repl=) is complete as evaluated',
+     'static analysis: dispatch-chain exhaustiveness, expand/return census per handler over '
+     'resolved aliases, data-flow of parsed definition tokens',
+     'DESIGN.md 3.8 (DT1, EX1), 3.4 (DF1), 4 C03')
+
 prop('C04',
-     [PD.pd1, PD.pd2, PD.pd5],
+     [PD.pd1, PD.pd2, PD.pd5, MI.pd0],
      'every generated token is pinned (PD1), re-stamped tokens are pinned (PD2), and bodies, '
      'defaults, glossary and cleveref replacements are copied before they are stamped (PD5)',
      'decides that generated text cannot spread or be re-mapped by a later use; not decided: '
@@ -65,7 +80,7 @@ prop('C04',
      'DESIGN.md 3.1, 4 C04')
 
 prop('C06',
-     [T.sp1, T.sp2, T.sp3, T.ix4],
+     [T.sp1, T.sp2, T.sp3, T.ix4, MI.pd0],
      'static table and dispatch rules: the special-sequence table equals the documented one '
      'and contains nothing else that plain prose could hit (SP1), values are never longer '
      'than keys (SP3), longest match (SP2), tables well-formed (IX4)',
@@ -91,8 +106,19 @@ prop('C08',
      'data-flow of the collected tokens into buf.back',
      'DESIGN.md 3.7, 4 C08')
 
+prop('C10',
+     [MI.ex2, MI.lc1, T.mt4, PD.pd1],
+     'rotation state: an argument is expanded once (EX2: formulas inside handler arguments '
+     'consume one placeholder), collections are per language and looked up at the time of use '
+     '(LC1), punctuation entries are single characters (MT4), generated tokens pinned (PD1)',
+     'decides enabling conditions of the rotation clause only; the decision table of '
+     'replace_section (MT1) is a separate rule',
+     '',
+     'static analysis: expand/return census, attribute-store census, table evaluation',
+     'DESIGN.md 3.8 (MT1-MT4), 4 C10')
+
 prop('C12',
-     [LS.ls1_ml],
+     [LS.ls1_ml, MI.ml6, MI.lc1],
      'text and map of every language section stay in lock step through sectioning, joining '
      'and placeholder insertion (LS1m)',
      'decides only the lock-step clause of C12 so far',
@@ -111,7 +137,7 @@ prop('C13',
      'DESIGN.md 3.2, 4 C13')
 
 prop('C14',
-     [LS.ls1_shell, AB.ab2],
+     [LS.ls1_shell, AB.ab2, MI.oks],
      'the concatenation of parts and the per-part offset shift stay in lock step (LS1s)',
      'decides only the lock-step clause so far',
      '',
@@ -119,7 +145,7 @@ prop('C14',
      'DESIGN.md 3.2, 4 C14')
 
 prop('C15',
-     [TJ.tj1, TJ.tj2, TJ.tj3, AB.ab2],
+     [TJ.tj1, TJ.tj2, TJ.tj3, AB.ab2, MI.oks],
      'every access to answer data is type-checked through json_get or validated at source '
      '(TJ1, interprocedural taint from JSONDecoder.decode through parameters, callbacks, '
      'tuples and attributes), decoding is guarded (TJ2), the error path is one diagnostic and '
@@ -148,6 +174,18 @@ prop('C16',
      'static analysis: interprocedural string-taint analysis with sanitiser + path-sensitive '
      'symbolic evaluation of cursor and accumulators',
      'DESIGN.md 3.4 (TH1, TH2), 3.2 (LS2), 4 C16')
+
+prop('C19',
+     [MI.uk, PS.ps1],
+     'recorded only when undeclared at the time of use, only in text mode, once, reset per '
+     'document, printed one per line (UK); what is declared does not depend on earlier calls '
+     '(PS1)',
+     'decides the recording conditions and history independence; not decided: that comments '
+     'and skipped regions never reach the expander (DT1 gives the structural half)',
+     '',
+     'static analysis: guard-fact dominance at every recording site incl. helper functions '
+     'and companion containers, literal math flags at call sites',
+     'DESIGN.md 3.8 (UK1-UK4), 4 C19')
 
 prop('C17',
      [PS.ps1, PS.ps2, PS.ps3],
